@@ -861,6 +861,86 @@ func c12MultiFixed(emit func(c12Case)) {
 	emit(c12Case{Leg: "multi", ID: -2, Note: "two message sequences interleaved", Honest: true, Msgs: d.msgs, Ops: d.ops})
 }
 
+// many concurrent messages: 2..16 fragmented messages (half of the histories have 9..16), one partition
+// each, every byte eventually arrives, far inside both limits (< 300 fragments, < 2 kB). Arrival orders
+// put later messages wholly before earlier ones: reverse message order, random permutation across all
+// messages, each with and without every fragment duplicated. nm < 0: the fixed member (10 messages of
+// 3 fragments, last message first).
+func c12ManyCase(r *c12Rand, id, nm, mode int) c12Case {
+	fixed := nm > 0
+	if !fixed {
+		nm = 2 + r.intn(15)
+		if r.chance(50) {
+			nm = 9 + r.intn(8)
+		}
+		mode = r.intn(4)
+	}
+	d := &c12Driver{fb: New(), small: true}
+	per := make([][]c12Frag, nm)
+	for s := 0; s < nm; s++ {
+		mtu := 1 + r.intn(12)
+		n := mtu*(1+r.intn(5)) + 1 + r.intn(mtu) // 2..6 fragments
+		if fixed {
+			mtu, n = 4, 10
+		}
+		m := c12Msg{Ty: []int{1, 2, 11, 12, 13, 14, 16, 20}[r.intn(8)], Seq: s, Len: n, Mtu: mtu, body: r.bytes(n)}
+		m.Body = hex.EncodeToString(m.body)
+		d.msgs = append(d.msgs, m)
+		per[s] = c12Split(m, mtu)
+	}
+	var arr []c12Frag
+	dup := mode >= 2
+	switch mode % 2 {
+	case 0: // reverse message order; inside a message in order, reversed or shuffled
+		for s := nm - 1; s >= 0; s-- {
+			fr := append([]c12Frag{}, per[s]...)
+			switch {
+			case fixed:
+			case r.chance(33):
+				c12Shuffle(r, fr)
+			case r.chance(50):
+				for i, j := 0, len(fr)-1; i < j; i, j = i+1, j-1 {
+					fr[i], fr[j] = fr[j], fr[i]
+				}
+			}
+			for _, f := range fr {
+				arr = append(arr, f)
+				if dup {
+					arr = append(arr, f)
+				}
+			}
+		}
+	default: // random permutation across all messages (of the doubled list when dup)
+		for s := 0; s < nm; s++ {
+			arr = append(arr, per[s]...)
+			if dup {
+				arr = append(arr, per[s]...)
+			}
+		}
+		c12Shuffle(r, arr)
+	}
+	for i := 0; i < len(arr); {
+		k := 1
+		if !fixed && r.chance(30) {
+			k = 1 + r.intn(3)
+		}
+		if i+k > len(arr) {
+			k = len(arr) - i
+		}
+		fr := make([]c12Frag, k)
+		copy(fr, arr[i:i+k])
+		ep := 0
+		if !fixed {
+			ep = r.intn(3)
+		}
+		d.push(c12Rec{Kind: "hs", Ep: ep, Frags: fr})
+		i += k
+	}
+	note := []string{"reverse", "permutation", "reverse+dup", "permutation+dup"}[mode]
+
+	return c12Case{Leg: "many", ID: id, Note: note, Honest: true, OnePar: true, Msgs: d.msgs, Ops: d.ops}
+}
+
 // TestVerifC12Buffer emits all legs.
 func TestVerifC12Buffer(t *testing.T) {
 	out := newC12Out(t)
@@ -889,5 +969,10 @@ func TestVerifC12Buffer(t *testing.T) {
 	}
 	for i := 0; i < 300*mult; i++ {
 		out.emit(c12HonestCase(r, "big", i, 40000, 2000, false))
+	}
+	out.emit(c12ManyCase(r, -1, 10, 0))
+	out.emit(c12ManyCase(r, -2, 16, 2))
+	for i := 0; i < 600*mult; i++ {
+		out.emit(c12ManyCase(r, i, 0, 0))
 	}
 }
